@@ -1049,7 +1049,7 @@ impl Property for C06 {
                     };
                     let wpath = if sc.history == 3 {
                         // same path as the real input, which prepare_input overwrites afterwards
-                        let p = scratch.path("in.qasm");
+                        let p = cli::input_path(&scratch, &header, &stmts);
                         std::fs::write(&p, wcirc.to_qasm()).expect("scratch write");
                         p
                     } else {
